@@ -1,6 +1,6 @@
 (** C12 -- comparison functions evaluated (vm_compute) by the correspondence harness. *)
 From Coq Require Import List Bool ZArith.
-From SV Require Import C12.Slice C12.Shape C12.Expr C12.ExprSpec.
+From SV Require Import C12.Slice C12.Shape C12.Expr C12.ExprSpec C12.FiniteDiff.
 Import ListNotations.
 Open Scope Z_scope.
 
@@ -97,3 +97,26 @@ Definition bcast_code (c : nshape * nshape * option nshape * Z * Z) : nat :=
   let '(a, b, impl, sa, sb) := c in
   ((if onshape_eqb (broadcast_nested a b) impl then 0 else 1)
    + (if ((size a =? sa) && (size b =? sb))%Z then 0 else 2))%nat.
+
+(* ---------------------------------------------------------------- finite differences, DFT *)
+
+(** SingleAxisFiniteDifference: shape, axis, prepend, append, circular, declared output shape
+    ([None]: constructor raised), shape of the evaluation.  bits: 1 declared, 2 actual *)
+Definition safd_code (c : shape * Z * option Z * option Z * bool * option shape * option shape) : nat :=
+  let '(s, ax, p, a, circ, decl, act) := c in
+  ((if oshape_eqb (safd_declared s ax p a circ) decl then 0 else 1)
+   + (if oshape_eqb (safd_actual s ax p a circ) act then 0 else 2))%nat.
+
+(** FiniteDifference: declared (collapsed or block) output shape *)
+Definition fd_code (c : shape * option (list Z) * option Z * option Z * bool * option nshape) : nat :=
+  let '(s, axes, p, a, circ, decl) := c in
+  if onshape_eqb (fd_declared s axes p a circ) decl then 0%nat else 1%nat.
+
+(** DFT: declared output shape, shape of inv on the declared output shape *)
+Definition dft_code (c : shape * option (list Z) * option (list Z) * option shape * option shape) : nat :=
+  let '(s, axes, ash, decl, inv) := c in
+  ((if oshape_eqb (dft_declared s axes ash) decl then 0 else 1)
+   + (match decl with
+      | Some o => if oshape_eqb (dft_inv_shape s o axes ash) inv then 0 else 2
+      | None => 0
+      end))%nat.
